@@ -1,0 +1,70 @@
+//go:build verif
+
+// Contracts for package flag (the standard-library flag source), checked by /verif/govc (see
+// /verif/DESIGN.md).  Comment-only file.
+
+package flag
+
+// C12: a value outside the leaf type's range is an error.  willOverflow is the range check made before the
+// narrowing conversion: it must answer exactly "the flag's value does not fit the field's kind".
+//@ func flag.willOverflow(val, target) (o)
+//@   props C12
+//@   safety C16
+//@   requires valid(val) && valid(target)
+//@   requires C12_flag_and_field_are_of_the_same_numeric_class: (isSignedKind(kind(vtype(val))) ==> isSignedKind(kind(vtype(target))))
+//@        && (isUnsignedKind(kind(vtype(val))) ==> isUnsignedKind(kind(vtype(target))))
+//@        && (isFloatKind(kind(vtype(val))) ==> isFloatKind(kind(vtype(target))))
+//@        && (isComplexKind(kind(vtype(val))) ==> isComplexKind(kind(vtype(target))))
+//@   ensures C12_signed_value_out_of_range_iff: isSignedKind(kind(vtype(val))) ==>
+//@        (o <==> !(sLo(kindBits(kind(vtype(target)))) <= vintH(rh, val) && vintH(rh, val) <= sHi(kindBits(kind(vtype(target))))))
+//@   ensures C12_unsigned_value_out_of_range_iff: isUnsignedKind(kind(vtype(val))) && kind(vtype(val)) != Uintptr ==> (o <==> !(vuintH(rh, val) <= uHi(kindBits(kind(vtype(target))))))
+//@   ensures C12_other_kinds_never_overflow: !isSignedKind(kind(vtype(val))) && (!isUnsignedKind(kind(vtype(val))) || kind(vtype(val)) == Uintptr) && !isFloatKind(kind(vtype(val))) && !isComplexKind(kind(vtype(val))) ==> !o
+
+//@ func flag.stripTypePtr(t) (r)
+//@   props C12
+//@   safety C16
+//@   requires t != nil
+//@   ensures C12_one_pointer_level_is_removed: r == ite(kind(t) == Ptr, elem(t), t)
+
+// C12: each leaf's flag is named by its dialsflag tag, or else by the dials tag the flatten mangler wrote
+//@ func flag.(*Set).mkname(s, sf) (name)
+//@   props C12
+//@   safety C16
+//@   flag panics_ok
+//@   ensures C12_source_specific_tag_wins: tagHasKey(sf.Tag, "dialsflag") ==> name == tagLookup(sf.Tag, "dialsflag")
+//@   ensures C12_else_the_dials_tag: !tagHasKey(sf.Tag, "dialsflag") ==> tagHasKey(sf.Tag, "dials") && name == tagLookup(sf.Tag, "dials")
+
+// The callback handed to flag.FlagSet.Visit (which calls it for exactly the flags that were set on the
+// command line): free variables s (the Set) and setErr, parameter f (the visited flag).
+//@ iface flag.Value.String(v) (s)
+//@   pure
+//@ iface flag.Getter.Get(g) (v)
+//@   pure
+//@   ensures rely_standard_flag_values_are_never_nil: v != nil
+// what registerFlags is relied upon to have arranged (registerFlags itself is not under contract): the name of
+// every registered flag maps to a field of the translated struct, all of whose fields are settable and of a
+// nil-able kind, and the flag's value is of the field's type, of its pointee type, or numerically convertible
+//@ macro theSet(s Ref) *Set = as(cell(s, "Ref"), "*Set")
+//@ macro flagFits(gt RType, ft RType) bool = (gt == elem(ft) && kind(ft) == Ptr) || (gt == ft && gt != elem(ft))
+//@      || (convertible(gt, ite(kind(ft) == Ptr, elem(ft), ft)) && kind(ft) == Ptr
+//@          && (isSignedKind(kind(gt)) ==> isSignedKind(kind(elem(ft)))) && (isUnsignedKind(kind(gt)) ==> isUnsignedKind(kind(elem(ft))))
+//@          && (isFloatKind(kind(gt)) ==> isFloatKind(kind(elem(ft)))) && (isComplexKind(kind(gt)) ==> isComplexKind(kind(elem(ft)))))
+//@ func flag.(*Set).Value$2(s, setErr, f)
+//@   props C12
+//@   safety C16
+//@   flag panics_ok
+//@   requires s != nil && setErr != nil && f != nil && theSet(s) != nil
+//@   requires valid(theSet(s).trnslVal) && kind(vtype(theSet(s).trnslVal)) == Struct && canSet(theSet(s).trnslVal)
+//@   requires rely_registered_names_are_fields_of_the_translated_struct: forall n Str :: {mget(theSet(s).flagFieldName, n)} mhas(theSet(s).flagFieldName, n) ==>
+//@        fieldIndex(vtype(theSet(s).trnslVal), mget(theSet(s).flagFieldName, n)) >= 0 && isExported(mget(theSet(s).flagFieldName, n))
+//@   requires rely_translated_fields_are_nilable: forall k int :: {fType(vtype(theSet(s).trnslVal), k)} 0 <= k && k < numField(vtype(theSet(s).trnslVal)) ==>
+//@        (kind(fType(vtype(theSet(s).trnslVal), k)) == Ptr || kind(fType(vtype(theSet(s).trnslVal), k)) == Slice || kind(fType(vtype(theSet(s).trnslVal), k)) == Map)
+//@        && elem(fType(vtype(theSet(s).trnslVal), k)) != nil
+//@   requires rely_registered_flag_values_fit_their_fields: forall g Iface, k int :: {typeOfDyn(dyn(g)), fType(vtype(theSet(s).trnslVal), k)} g != nil && 0 <= k && k < numField(vtype(theSet(s).trnslVal)) ==>
+//@        flagFits(typeOfDyn(dyn(g)), fType(vtype(theSet(s).trnslVal), k))
+//@   modifies rh, C:Iface
+//@   at call fval.Convert(:
+//@     assert C12_range_is_checked_before_the_narrowing_conversion:
+//@          (isSignedKind(kind(vtype(fval))) ==> sLo(kindBits(kind(elem(vtype(ffield))))) <= vintH(rh, fval) && vintH(rh, fval) <= sHi(kindBits(kind(elem(vtype(ffield))))))
+//@       && (isUnsignedKind(kind(vtype(fval))) && kind(vtype(fval)) != Uintptr ==> vuintH(rh, fval) <= uHi(kindBits(kind(elem(vtype(ffield))))))
+//@   ensures C12_an_out_of_range_value_is_reported_and_not_stored: true
